@@ -23,7 +23,7 @@ DEATH_IS_VIOLATION = ()
 SECRET_ATTRS = [K.CKA_VALUE, K.CKA_PRIVATE_EXPONENT, K.CKA_PRIME_1, K.CKA_PRIME_2, K.CKA_EXPONENT_1, K.CKA_EXPONENT_2, K.CKA_COEFFICIENT]
 
 class GW(c08.GW):
-    def keys(self, pid, kinds=("aes", "generic", "des3", "rsa_priv", "ec_priv")):
+    def keys(self, pid, kinds=("aes", "generic", "des3", "rsa_priv", "ec_priv", "dsa_priv", "dh_priv")):
         return [o for o in self.live_objs(pid) if self.info.get(o.ref, {}).get("kind") in kinds and o.ref in self.P(pid).h2obj.values() and not (o.private and self.P(pid).login.get(o.tok) != "U")]
 
     def s_gen(self, tid=0, pid=1):
@@ -139,7 +139,7 @@ def gen(seed, tier, index):
     for t in g.toks():
         g.s_open(tok=t, rw=True); g.s_login(user=K.CKU_USER, tok=t)
     if r.random() < 0.5: g.s_trustedkey()
-    kinds = ["aes", "generic", "des3", "rsa_priv", "ec_priv", "aes", "generic"]
+    kinds = ["aes", "generic", "des3", "rsa_priv", "ec_priv", "aes", "generic", "dsa_priv", "dh_priv"]
     for _ in range(3): g.s_create(kind=r.choice(kinds))
     n = r.choice([10, 14, 20, 30]) if tier == "quick" else r.choice([16, 30, 50])
     for _ in range(n):
